@@ -8,7 +8,7 @@
     negated text is never a [usize] while its [isize] reading is the negation of the plain one
     whenever both are in range. *)
 From Coq Require Import String List ZArith NArith Bool Lia.
-From PyxisModel Require Import Base IntLit.
+From PyxisModel Require Import Base Grammar Syntax IntLit IntLitSyntax.
 
 Theorem readers_agree s n z :
   read_usize false s = Some n -> read_isize false s = Some z -> z = Z.of_N n.
@@ -56,3 +56,14 @@ Example isize_min_only_negated :
   read_usize false "9223372036854775808" = Some 9223372036854775808%N.
 Proof. vm_compute. repeat split. Qed.
 
+
+(** the token model of [Syntax.v] and the text reader of a [usize] disagree on negated zero
+    (DESIGN.md, section 11) and nowhere else *)
+Theorem usize_token_vs_text neg s n sfx :
+  lit_value s = Some (n, sfx) ->
+  (usize_of (signed neg n) = read_usize neg s <-> ~ (neg = true /\ n = 0%N)).
+Proof.
+  intros Hl. split.
+  - intros He [-> ->]. unfold read_usize in He. cbn in He. discriminate.
+  - intros Hn. apply (usize_of_read neg s n sfx Hl). intros -> ->. apply Hn. split; reflexivity.
+Qed.
